@@ -35,9 +35,6 @@ class Dense:
 
 def draw(rng, n, sizes, wide=False, homo=False):
     means = [rng.uniform(-10, 10, size=(n, e)) * (rng.choice([1e-2, 1.0]) if not wide else 1.0) for e in sizes]
-    if not wide and rng.random() < 0.3:
-        off = float(rng.choice([1e3, 1e5, 1e6]))          # the estimator depends on differences of means: a common offset of any size changes nothing
-        means = [mm + off for mm in means]
     for mm in means:
         mm[rng.random(size=mm.shape) < 0.15] = 0.0          # a predicted mean of exactly 0 is an ordinary value
     if wide:
@@ -132,10 +129,20 @@ def run(ctx):
         for rep in range(1 if (ctx.quick or wide) else 3):
             homo = rep == 1
             means, vars_, d = draw(rng, n, sizes, wide=wide, homo=homo)
+            off = float(rng.choice([1e5, 1e6])) if (not wide and rng.random() < 0.35) else 0.0
+            if off:
+                # moderate variances for the offset cases, so that the conditioning of the input is known (see below)
+                vars_ = [np.exp(rng.uniform(math.log(0.5), math.log(2.0), size=vv.shape)) for vv in vars_]
             want = []
             for p, e in enumerate(sizes):
                 v, mag = ev(terms[(n, e)], {"m": means[p], "v": vars_[p], "d": d})
                 want.append((v, mag))
+            if off:
+                # the estimator is a function of DIFFERENCES of predicted means: with a common offset on all of them the score is the one
+                # computed above.  Tolerance: that of the input (differences known to off * 2^-52); the unchanged kernel stays within
+                # off * 1e-16 of it on such inputs, the bound used is off * 1e-13 relative
+                means = [mm + off for mm in means]
+                want = [(v, off * 1e-4 * (1.0 + abs(v))) for v, mag in want]
             P = len(sizes)
             entries = {}
             gen = np.random.default_rng(1)
